@@ -6,7 +6,7 @@ under the recorded run, once per given VERIF_SEED.  Prints one line per (change,
 import json, os, pathlib, subprocess, sys
 ROOT = pathlib.Path(__file__).resolve().parent.parent
 lane, nl, *seeds = sys.argv[1:]; lane, nl = int(lane), int(nl)
-ids = sorted(d.name for d in (ROOT / "seeded").iterdir() if d.is_dir() and not d.name.startswith("_"))
+ids = sorted(d.name for d in (ROOT / "seeded").iterdir() if d.is_dir() and not d.name.startswith("_") and os.environ.get("DET_FILTER", "") in d.name)
 for k, sid in enumerate(ids):
     if k % nl != lane: continue
     meta = json.load(open(ROOT / "seeded" / sid / "meta.json")); props = meta["what_was_run"]["detected_by"] or [sid.split("-")[0]]
